@@ -9,7 +9,8 @@
 From Coq Require Import List NArith ZArith Bool String.
 From BS Require Import Base.Sexp Base.Types Base.Lit Gen.Tables Gen.Stdlib Gen.T_C05 Gen.Entities
      Model.Attrs Model.Render Model.Reparse Model.Build Model.SmartQuotes Spec.BuildSpec Spec.RenderSpec Spec.RoundTrip
-     Proofs.RenderProofs Proofs.RoundTripProofs Proofs.NormProofs.
+     Proofs.RenderProofs Proofs.RoundTripProofs Proofs.NormProofs Proofs.RoundTripHtml.
+From BS Require Model.EntitySubst.
 Import ListNotations.
 Open Scope N_scope.
 
@@ -96,6 +97,40 @@ Theorem C05_roundtrip_minimal : forall enc f rc cfg t,
   spec_run cfg (read_tokens read_text read_text rc (tokens_of enc f t)) = flat_tree cfg (norm enc f cfg t).
 Proof. exact roundtrip_minimal. Qed.
 Print Assumptions C05_roundtrip_minimal.
+
+(* the 'html' formatter: the substitution function is C09's model of substitute_html; element text is read by bs4's
+   reader (read_text: the definition C09's theorems are about as well), attribute values by the model of html.unescape
+   (Model/EntitySubst.v unescape), which is what html.parser applies to a quoted value.  No hypothesis about the
+   functions is left: C09's html_escaped / escaped_reads_back / replace_dq_transparent discharge them. *)
+Theorem C05_roundtrip_html : forall enc f rc cfg t,
+  f_subst f = Some EntitySubst.substitute_html -> f_void f <> [] ->
+  memS (c_root cfg) (c_pw cfg) = false -> assocS (c_root cfg) (c_containers cfg) = None ->
+  representable_top f rc cfg t = true ->
+  spec_run cfg (read_tokens read_text EntitySubst.unescape rc (tokens_of enc f t)) = flat_tree cfg (norm enc f cfg t).
+Proof. exact roundtrip_html. Qed.
+Print Assumptions C05_roundtrip_html.
+
+(* 'minimal' with the same pair of readers (attribute values through html.unescape rather than the reference reader
+   of C05_roundtrip_minimal), resting on C09's escaped_reads_back *)
+Theorem C05_roundtrip_minimal_unescape : forall enc f rc cfg t,
+  f_subst f = Some subst_xml -> f_void f <> [] ->
+  memS (c_root cfg) (c_pw cfg) = false -> assocS (c_root cfg) (c_containers cfg) = None ->
+  representable_top f rc cfg t = true ->
+  spec_run cfg (read_tokens read_text EntitySubst.unescape rc (tokens_of enc f t)) = flat_tree cfg (norm enc f cfg t).
+Proof. exact roundtrip_minimal_unescape. Qed.
+Print Assumptions C05_roundtrip_minimal_unescape.
+
+(* what stands between the quotes of a written attribute value reads, under html.unescape, as the substituted text
+   before quoting; hence both substitutions read back in both positions *)
+Theorem C05_substitutions_read_back : forall s,
+  read_text (EntitySubst.substitute_html s) = s /\
+  EntitySubst.unescape (attr_inner (EntitySubst.substitute_html s)) = s /\
+  read_text (subst_xml s) = s /\
+  EntitySubst.unescape (attr_inner (subst_xml s)) = s.
+Proof.
+  intros s. destruct (html_reads_back s) as [A B]. destruct (minimal_reads_back s) as [C D]. repeat split; assumption.
+Qed.
+Print Assumptions C05_substitutions_read_back.
 
 Theorem C05_read_text_inverts_substitute_xml : forall s,
   read_text (subst_xml s) = s /\ read_text (attr_inner (subst_xml s)) = s.
